@@ -228,7 +228,8 @@ theorem classify_comment (hP : PrintOK P) : (classify P "@comment".toList).1 = .
 theorem isBal_valToks (v : Str) (hv : EncBal P v) : IsBal (valToks P v) :=
   IsBal.plain SPt _ rfl (sevtOf_spec hv).1
 
-theorem fieldSrcs_wf (F : BibtexFormat) (col : Nat) (fs : List Field) (hfs : ∀ f ∈ fs, FieldOK P f) :
+theorem fieldSrcs_wf (hP : PrintOK P) (F : BibtexFormat) (hF : FormatOK F) (col : Nat) (fs : List Field)
+    (hfs : ∀ f ∈ fs, FieldOK P f) :
     ∀ s ∈ fieldSrcs P F col fs, allPlain s.key ∧ IsValue s.val := by
   induction fs with
   | nil => intro s hs; simp [fieldSrcs] at hs
@@ -237,7 +238,9 @@ theorem fieldSrcs_wf (F : BibtexFormat) (col : Nat) (fs : List Field) (hfs : ∀
     simp only [fieldSrcs, List.mem_cons] at hs
     rcases hs with rfl | hs
     · obtain ⟨v, hv, hclean⟩ := (hfs f List.mem_cons_self).value
-      refine ⟨by simp [allPlain, NLt, isPlainTok], ?_⟩
+      refine ⟨?_, ?_⟩
+      · have := lineHead_plain hP F hF col f.key (hfs f List.mem_cons_self).keyOK
+        simpa [allPlain, NLt, isPlainTok] using this
       simp only [hv, strOf]
       apply isValue_fvalToks v hclean
       by_cases h : (fs.isEmpty && !F.trailingComma) = true <;> simp [h]
@@ -249,9 +252,9 @@ theorem fieldSrcs_keys (hP : PrintOK P) (F : BibtexFormat) (hF : FormatOK F) (co
   induction fs with
   | nil => rfl
   | cons f fs ih =>
-    have hk : strip P (flatten [NLt, .text (lineHead F col f.key)]) = f.key := by
-      have : flatten [NLt, .text (lineHead F col f.key)] = '\n' :: lineHead F col f.key := by
-        simp [flatten, NLt, Tok.lit]
+    have hk : strip P (flatten (NLt :: lexFrom P false (lineHead F col f.key))) = f.key := by
+      have : flatten (NLt :: lexFrom P false (lineHead F col f.key)) = '\n' :: lineHead F col f.key := by
+        rw [NLt, flatten_cons_mark, flatten_lexFrom]; rfl
       rw [this]; exact strip_lineHead hP F hF col f.key (hfs f List.mem_cons_self).keyStrip
     simp only [fieldSrcs, List.map_cons, hk, ih (fun g hg => hfs g (List.mem_cons_of_mem _ hg))]
 
@@ -260,8 +263,8 @@ theorem srcOf_wf (hP : PrintOK P) (F : BibtexFormat) (hF : FormatOK F) (col : Na
     (srcOf P F col blk).WF P ∧ (srcOf P F col blk).DistinctFields P := by
   match blk, hb, hni with
   | .live (.entry e), hb, _ =>
-    refine ⟨⟨by rw [classify_entry hP e hb], ?_, fieldSrcs_wf F col e.fields hb.fields, ?_⟩, ?_⟩
-    · by_cases hk : e.key.isEmpty = true <;> simp [hk, allPlain, isPlainTok]
+    refine ⟨⟨by rw [classify_entry hP e hb], ?_, fieldSrcs_wf hP F hF col e.fields hb.fields, ?_⟩, ?_⟩
+    · exact hb.keyOK.1
     · intro w hw
       simp only [trailingOf] at hw
       split at hw
@@ -270,8 +273,13 @@ theorem srcOf_wf (hP : PrintOK P) (F : BibtexFormat) (hF : FormatOK F) (col : Na
     · simp only [srcOf, BlockSrc.DistinctFields]
       rw [fieldSrcs_keys hP F hF col e.fields hb.fields]; exact hb.fieldKeys
   | .live (.string k v l r m), hb, _ =>
-    obtain ⟨_, _, s, rfl, hv⟩ := hb
-    exact ⟨⟨classify_string hP, by simp [allPlain, isPlainTok], isBal_valToks s hv⟩, trivial⟩
+    obtain ⟨hko, _, s, rfl, hv⟩ := hb
+    have hpl : allPlain (lexFrom P false (k ++ [' '])) := by
+      have := (lex_keyctx2 hP.word [] k [' '] '=' .eq [] (by intro c hc; cases hc) hko
+        (by intro c hc; simp at hc; subst hc; decide) (by decide) hP.eqWord (by decide) (by decide)).2
+      rw [List.nil_append] at this
+      exact this
+    exact ⟨⟨classify_string hP, hpl, isBal_valToks s hv⟩, trivial⟩
   | .live (.preamble v l r m), hb, _ => exact ⟨⟨classify_preamble hP, (vtOf_spec hb).1⟩, trivial⟩
   | .live (.expl c l r m), hb, _ => exact ⟨⟨classify_comment hP, (vtOf_spec hb.1).1⟩, trivial⟩
   | .live (.impl c l r m), _, hni => simp [isImpl] at hni
@@ -286,9 +294,9 @@ theorem expFields_content (hP : PrintOK P) (F : BibtexFormat) (hF : FormatOK F) 
   | nil => rfl
   | cons f fs ih =>
     obtain ⟨v, hv, hclean⟩ := (hfs f List.mem_cons_self).value
-    have hk : strip P (flatten [NLt, .text (lineHead F col f.key)]) = f.key := by
-      have : flatten [NLt, .text (lineHead F col f.key)] = '\n' :: lineHead F col f.key := by
-        simp [flatten, NLt, Tok.lit]
+    have hk : strip P (flatten (NLt :: lexFrom P false (lineHead F col f.key))) = f.key := by
+      have : flatten (NLt :: lexFrom P false (lineHead F col f.key)) = '\n' :: lineHead F col f.key := by
+        rw [NLt, flatten_cons_mark, flatten_lexFrom]; rfl
       rw [this]; exact strip_lineHead hP F hF col f.key (hfs f List.mem_cons_self).keyStrip
     have hval : strip P (flatten (fvalToks P v ++ (if (fs.isEmpty && !F.trailingComma) = true then [NLt] else []))) =
         '{' :: (v ++ ['}']) := by
@@ -312,14 +320,11 @@ theorem srcOf_content (hP : PrintOK P) (F : BibtexFormat) (hF : FormatOK F) (col
     simp only [contentOf, encContent, encBlock, classify_entry hP e hb]
     rw [expFields_content hP F hF col e.fields hb.fields]
     congr 1
-    by_cases hk : e.key = []
-    · simp [hk, flatten, strip, lstrip, rstrip]
-    · have : e.key.isEmpty = false := by simpa using hk
-      simp [this, flatten, Tok.lit, hb.keyStrip]
+    rw [flatten_lexFrom]; exact hb.keyStrip
   | .live (.string k v l r m), hb, _ =>
     obtain ⟨_, hks, s, rfl, hv⟩ := hb
-    have h1 : strip P (flatten [.text (k ++ [' '])]) = k := by
-      have : flatten [Tok.text (k ++ [' '])] = [] ++ (k ++ [' ']) := by simp [flatten, Tok.lit]
+    have h1 : strip P (flatten (lexFrom P false (k ++ [' ']))) = k := by
+      have : flatten (lexFrom P false (k ++ [' '])) = [] ++ (k ++ [' ']) := by rw [flatten_lexFrom]; rfl
       rw [this]; exact strip_sandwich [] k [' '] (allSpace_nil P) (allSpace_single hP.spSpace) hks
     have h2 := strip_valToks hP s hv [] (Or.inl rfl)
     simp only [List.append_nil] at h2
